@@ -3,6 +3,32 @@ NOTES = ("All checks share one Coq development and one harness; ./check --setup 
          "Fix commits in /repo (F1-F7) are listed in known_findings.json as fixed entries.")
 NOT_APPLICABLE = {}
 CHECKS = {
+    "C12": {
+        "text": "Proved over any group satisfying explicit prime-order laws: unblinding an evaluation of the blinded point equals the evaluation of the "
+                "unblinded point for every invertible blinding; the server's answer is exponent*point with exponent 1/(key+PRF(tag)) under every history; "
+                "blinding hides the point iff r<>1; different exponents give different outputs. The model (scalars, hashes, transcripts concrete; group "
+                "operations through a dalek oracle) is bit-exact with the Rust on every run.",
+        "note": "Partial: group laws of ristretto255 and primality of ell are premises; freshness of blinding is measured.",
+    },
+    "C13": {
+        "text": "Completeness of the batched DLEQ proof proved for any batch, key, nonce, hash and group satisfying the laws; binary round trip of proofs "
+                "proved. Soundness: the model's verifier is bit-exact with the Rust's, and every single-component replacement is tried against the Rust on "
+                "every run (a false accept is reported with the tuple); nonce freshness measured by recomputing every commitment.",
+        "note": "Partial: soundness rests on the random-oracle argument, not proved here.",
+    },
+    "C14": {
+        "text": "Refinement proved: for every operation history over a family of instances (evaluate, puncture, clone, export+import), each instance equals "
+                "its creation state with its lineage's punctures applied; key / public key never change; an instance answers iff point decodable, tag "
+                "registered and not punctured in its lineage, always with the same value (uses the GGM history theorem at depth 8). Histories incl. resync "
+                "of existing instances are run against the Rust and the model on every check, key material compared.",
+        "note": "The serialised key state (bincode of bitvec) is not modelled; import is a copy in the model.",
+    },
+    "C15": {
+        "text": "Proved: decode(encode)=id for public keys (sorted one-byte tags, up to 256) and proofs (canonical scalars); inputs above the limits are "
+                "refused; every key fits under the limit declared in the source (regenerated constant). JSON forms: round trip / truncation checked "
+                "against serde_json on every run.",
+        "note": "Partial with respect to JSON (grammar not modelled).",
+    },
     "C17": {
         "text": "Proved for any F: create_share's output is the fixed JSON frame around base64 of exactly the key, a share and the tag of the core derivations; "
                 "base64 decode(encode) = id for all byte strings, only canonical encodings accepted, alphabet needs no JSON escaping; group_shares = "
